@@ -1,6 +1,6 @@
 (* C01 - Broker operations never lose or duplicate a message: the Redis client (one client, one call at a time) over the server model RedisSrv.v.
    Statements only; every proof is `exact <lemma>`. *)
-From Repid Require Import Base Sched RedisSrv RedisBroker RedisProofs.
+From Repid Require Import Base Sched RedisSrv RedisBroker RedisProofs RedisRun.
 
 (* enqueue of a fresh name: exactly one place afterwards *)
 Theorem C01_redis_enqueue_places : forall e k pl pc now s, WF s -> occ (rk_name k) s = 0 ->
@@ -50,6 +50,21 @@ Theorem C01_redis_single_step_calls : forall e k pl pc now,
   length (requeue_prog e k pl pc now) = 1%nat.
 Proof. exact single_step_calls. Qed.
 
+(* whole sequential histories (unbounded): from the empty server, through ANY sequence of API calls - enqueue, take (with its
+   window reads, the take transaction, the burial of a message without data, the dead-lettering of an expired one), ack,
+   nack, reject, requeue, maintenance (rejects of every timed-out processing entry) - by a caller that enqueues fresh names
+   and disposes only of what it holds, the key layout stays well-formed and no name is ever in two places *)
+Theorem C01_redis_no_duplicates_step : forall e s o, RI s -> wb_rop s o -> RI (fst (fst (run_api e s o))).
+Proof. exact redis_no_duplicates. Qed.
+
+Theorem C01_redis_no_duplicates_from_empty : forall e h, wb_rhist e srv0 h -> forall n, occ n (run_rops e srv0 h) <= 1.
+Proof. exact redis_no_duplicates_from_empty. Qed.
+
+(* what a take hands out is marked as being processed, exactly once: the premise under which the caller may dispose of it *)
+Theorem C01_redis_take_holds : forall e s q ct topics choice now s1 n pl pc tr,
+  RI s -> run_api e s (ROTake q ct topics choice now) = (s1, TMsg n pl pc, tr) -> occ n s1 = 1 /\ held n s1 = 1.
+Proof. exact redis_take_holds. Qed.
+
 Print Assumptions C01_redis_enqueue_places.
 Print Assumptions C01_redis_ack_places.
 Print Assumptions C01_redis_nack_places.
@@ -59,3 +74,6 @@ Print Assumptions C01_redis_grab_places_list.
 Print Assumptions C01_redis_grab_places_delayed.
 Print Assumptions C01_redis_other_names_untouched.
 Print Assumptions C01_redis_single_step_calls.
+Print Assumptions C01_redis_no_duplicates_step.
+Print Assumptions C01_redis_no_duplicates_from_empty.
+Print Assumptions C01_redis_take_holds.
